@@ -76,6 +76,13 @@ def theorem_names(module):
     return names
 
 
+_TIER = ["quick"]
+
+
+def tier_is_thorough():
+    return _TIER[0] == "thorough"
+
+
 def lean_step(pid, cfg, res):
     """translator, build, audit. Fills res['obligations'], res['broken'] (list of strings)."""
     import translate
@@ -125,6 +132,13 @@ def lean_step(pid, cfg, res):
             else:
                 discharged += 1
                 ax_report[n] = axs[n]
+    if ok and tier_is_thorough() and modules:
+        # independent re-check of the compiled modules (replays every declaration through the kernel)
+        t1 = time.time()
+        rc_, out_ = common._run(["lake", "env", "leanchecker"] + modules, cwd=LEAN, timeout=3600)
+        res["leanchecker"] = {"modules": modules, "ok": rc_ == 0, "wall_s": round(time.time() - t1, 1)}
+        if rc_ != 0:
+            broken.append("leanchecker rejected the compiled modules: " + out_[-400:])
     res["obligations"] = len(thms) + len(cfg.get("headline_extra", []))
     res["discharged"] = discharged
     res["theorems"] = [n for _, n in thms]
@@ -199,6 +213,7 @@ def match_known(pid, viol):
 
 def run_property(pid, tier):
     t0 = time.time()
+    _TIER[0] = tier
     cfg = INDEX[pid]
     res = {"broken": []}
     violations = []      # (replay payload)
@@ -269,6 +284,7 @@ def run_property(pid, tier):
         "oracle": {k: v for k, v in (res.get("oracle") or {}).items() if k != "samples"},
         "regenerated": res.get("regenerated", []), "corpus_replays": res.get("corpus_replays", []),
         "broken_obligations": res["broken"], "build_s": res.get("build_s"), "translate_s": res.get("translate_s"),
+        "leanchecker": res.get("leanchecker"),
         "known_findings_printed": sorted(set(known_lines)),
     }
     write_evidence(pid, tier, "proof", cov, cfg.get("assumptions", []), wall, violations=len(violations))
